@@ -117,6 +117,9 @@ def check(rec: Rec, cc, bank, branch, account, origin):
 
 
 def replay(rec, case):
+    if case["input"].get("origin") == "configurations":
+        from ._configs import replay as _r
+        return _r(rec, case)
     import random
     i = case["input"]
     if i.get("origin") == "synthetic-layouts":
@@ -250,6 +253,26 @@ def shard(arg):
                 vals[k] = grouped
                 res, exp = check(rec, cc, vals["bank_code"], vals["branch_code"], vals["account_code"], f"grouped:{k}:{sep}{g_}")
                 rec.case("grouped-" + res, (cc, k, grouped))
+    # the literals of the source (vlib/dims.py: literal_dictionary) as component values: every fitting (bank, account) pair,
+    # and every fitting branch with a sample of them - for the countries the source names, and a handful for all others
+    from .. import dims
+    lits = dims.literal_dictionary()
+    named = cc in dims.literal_countries(oracle())
+    lb = [x for x in lits if dims.literal_fits(x, fi["bank_code"][2])]
+    lr = [x for x in lits if dims.literal_fits(x, fi["branch_code"][2])] if w["branch_code"] else []
+    la = [x for x in lits if dims.literal_fits(x, fi["account_code"][2])]
+    if not named:
+        lb, lr, la = lb[:6], lr[:3], la[:6]
+    for b in lb:
+        for a in la:
+            r = conforming(rng, fi["branch_code"][2], w["branch_code"]) if (w["branch_code"] and rng.random() < 0.5) else ""
+            res, exp = check(rec, cc, b, r, a, "source-literals")
+            rec.case("source-literals-" + res, (cc, b, r, a, "lit"), {"cc": cc, "bank_code": b, "branch_code": r, "account_code": a}
+                     if len(b) + len(a) > 12 else None)
+    for r in lr:
+        for b, a in [(rng.choice(lb or [""]), rng.choice(la or [""])) for _ in range(4)]:
+            res, exp = check(rec, cc, b, r, a, "source-literals")
+            rec.case("source-literals-" + res, (cc, b, r, a, "lit"))
     touch(cc, rng)
     # after other uses of the country (parsing, accessor reads, lookups, random draws): empty / whitespace-only components again
     for b, r, a in (("", "", ""), (" ", "", "\t"), ("", "", "1"), ("1", "", "")):
@@ -277,6 +300,9 @@ SYNTHETIC = {
     "ZY": {"bban_spec": "3!n4!a8!c", "bban_length": 15, "positions": {"branch_code": [0, 3], "bank_code": [3, 7], "account_code": [7, 15]}},
     "ZX": {"bban_spec": "2!a10!n2!n", "bban_length": 14, "positions": {"bank_code": [0, 2], "account_code": [2, 12], "branch_code": [12, 14]}},
     "ZW": {"bban_spec": "1!n1!n12!c", "bban_length": 14, "positions": {"bank_code": [0, 1], "branch_code": [1, 2], "account_code": [2, 14]}},
+    # the longest IBAN ISO 13616 allows (34 characters; the longest bundled one has 33) and a very short one
+    "ZV": {"bban_spec": "4!a6!n20!c", "bban_length": 30, "positions": {"bank_code": [0, 4], "branch_code": [4, 10], "account_code": [10, 30]}},
+    "ZU": {"bban_spec": "2!n1!n3!n", "bban_length": 6, "positions": {"bank_code": [0, 2], "branch_code": [2, 3], "account_code": [3, 6]}},
 }
 
 
@@ -402,5 +428,7 @@ def run(ctx):
         cc for cc in o.countries() if o.positions(cc) and cc not in with_pos)
     ctx.extra["countries_with_positions"] = len(with_pos)
     ctx.extra["success_per_country_min"] = min(ctx.rec.classes.get(f"success-{cc}", 0) for cc in with_pos)
-    ctx.require_classes("synthetic-fits", "synthetic-split", "synthetic-overlong", "grid-overlong", "grid-split", "grid-ok", "draw-ok", "draw-err-overlong", "unknown-or-no-positions",
+    from ._configs import stage as _config_stage
+    _config_stage(ctx, ['generate'])
+    ctx.require_classes("source-literals-ok", "synthetic-fits", "synthetic-split", "synthetic-overlong", "grid-overlong", "grid-split", "grid-ok", "draw-ok", "draw-err-overlong", "unknown-or-no-positions",
                         "grouped-ok", "grouped-err", "component-grouped", "component-alien", "component-ws", "component-ws-only", "component-lengthening", "after-touch-ok", "after-touch-err", "hyp-ok", *[f"success-{cc}" for cc in with_pos])
